@@ -676,6 +676,12 @@ def havoc(ex, ctx, st, attr, mode, tracked, recv=None):
             if recv is not None:
                 keep = z3.Implies(r != recv, keep)
             ctx.assume(keep)
+    elif mode in ("reset", "reset0"):
+        # the callee may only EMPTY the field (invalidation): every object keeps its value or gets the reset value
+        rv = V.NONE if mode == "reset" else V.INT(z3.IntVal(0))
+        x = z3.Int(f"rx!{ctx.explorer.uid}.{ctx.fresh_n}")
+        ctx.fresh_n += 1
+        ctx.assume(z3.ForAll([x], z3.Or(z3.Select(new, x) == z3.Select(old, x), z3.Select(new, x) == rv)))
     st.heap[attr] = new
 
 
